@@ -1040,6 +1040,11 @@ impl ByteCodeGenerator {
                 let result_regs: Vec<(Reg, TypeSize)> = phi_inputs
                     .iter()
                     .map(|r| {
+                        if matches!(r.as_ref(), mir::Value::None) {
+                            // A unit-valued arm yields nothing to merge; the merge register is
+                            // never read, so the (always live) scrutinee word stands in.
+                            return (scrut_reg, 1);
+                        }
                         let reg = self.find_keep(r);
                         let size = self
                             .vregister
